@@ -50,6 +50,13 @@ def build_compiled(nodes, sup, cg, mode="mcs", prune=True, **kw):
         if "no nodes in the partition" in str(ex):
             raise Rejected(str(ex))
         raise
+    except Exception as ex:
+        import networkx as nx
+
+        if isinstance(ex, nx.NetworkXUnfeasible):
+            # prune=False + zero-delay tie: to_connected_graph closes a cycle (decided by C07, see DESIGN.md 5); not C01/C06/C08's concern
+            raise Rejected(f"NetworkXUnfeasible in Graph(): {ex}")
+        raise
 
 
 def generated_graph(spec, ts_max=1.0, num_episodes=3, seed=0, trace="io", hash_ts=True):
